@@ -10,9 +10,9 @@ TRUSTED_BASE = [
 # property -> Lean modules holding its theorems
 PROP_MODULES = {
     "C18": ["Tramp.Props.C18"],
-    "C12": ["Tramp.Props.C12"],
+    "C12": ["Tramp.Props.C12", "Tramp.Props.C12Sys"],
     "C10": ["Tramp.Props.C10"],
-    "C13": ["Tramp.Props.C13", "Tramp.Props.C18"],
+    "C13": ["Tramp.Props.C13", "Tramp.Props.C18", "Tramp.Props.C13Sys"],
     "C15": ["Tramp.Props.C15"],
     "C16": ["Tramp.Props.C16"],
     "C20": ["Tramp.Props.C20"],
@@ -26,6 +26,9 @@ PROP_MODULES = {
     "C07": ["Tramp.Props.C07"],
     "C08": ["Tramp.Props.C08"],
     "C11": ["Tramp.Props.C11"],
+    "C06": ["Tramp.Props.C06", "Tramp.Props.C11", "Tramp.Props.C17"],
+    "C09": ["Tramp.Props.C09"],
+    "C14": ["Tramp.Props.C14"],
 }
 
 # property -> theorem names (in namespace Tramp) = the proof obligations
@@ -37,6 +40,7 @@ OBLIGATIONS = {
     "C12": [
         "c12_sound", "c12_exact_partial", "c12_mul_overflow_false", "c12_total", "c12_encode",
         "c12_pinned_panics", "c12_pinned_wraps_true", "c12_mul_overflow_counterexample",
+        "c12_failure_is_policy", "c12_first_htlc_rejected", "c12_first_htlc_answer", "c12_failure_bytes",
     ],
     "C10": [
         "c10_classify_iff", "c10_hash_eq", "c10_invoice_source", "c10_amount_rule", "c10_tlvAmount_wellformed",
@@ -44,7 +48,7 @@ OBLIGATIONS = {
     ],
     "C13": [
         "c13_immediate", "c13_forward", "c13_rewrite_records", "c13_rewrite_bytes",
-        "c18_total_fromBytes", "c18_total_tryFrom",
+        "c18_total_fromBytes", "c18_total_tryFrom", "c13_no_effect", "c13_tramp_one_component",
     ],
     "C15": ["pstep_inv", "c15_some", "c15_none", "c15_err_only_on_fault", "c15_codes", "c15_pinned_counterexample"],
     "C16": ["pstep_inv", "c16_ok", "c16_err", "c16_pinned_counterexample"],
@@ -60,6 +64,12 @@ OBLIGATIONS = {
     "C08": ["sstep_inv", "c08_write_ahead", "c08_marker_while_paying", "c08_pending_before_pay",
             "c08_free_only_when_quiet", "c08_succeeded_preimage"],
     "C11": ["c11_timeout_fails", "c11_not_before", "c11_fresh_deadline", "c11_restart_budget", "c11_ttf_sources"],
+    "C06": ["sstep_inv", "estep_inv", "c06_no_panic", "c06_bytes_total", "c06_immediate_or_held", "c06_at_most_once",
+            "c06_nonblocking_sends", "c06_owner_progress", "c06_pinned_overflow_panics", "c06_todo_counterexample",
+            "c11_timeout_fails", "c17_dispatch"],
+    "C09": ["c09_succeeded_settles", "c09_free_settles", "c09_pending_completed_settles", "c09_stale_pending_frees",
+            "c09_pending_pays", "c09_from_wait", "c09_pinned_wedge"],
+    "C14": ["c14_frame", "c14_own_state_only", "c14_frozen", "c14_no_pooling"],
     "C19": ["c19_iff", "c19_refuses_deltas", "c19_faithful", "c19_retry_cap"],
     "C20": ["c20_max", "c20_monotone", "c20_poll_catches_up", "c20_serve_truthful", "c20_timer_armed", "c20_timer_fires"],
 }
@@ -79,9 +89,9 @@ SUITES = {
 # property -> suites whose correspondence it depends on
 PROP_SUITES = {
     "C18": ["tlv"],
-    "C12": ["fee"],
+    "C12": ["fee", "system"],
     "C10": ["classify", "tlv"],
-    "C13": ["classify", "tlv"],
+    "C13": ["classify", "tlv", "e2e"],
     "C15": ["provider"],
     "C16": ["provider"],
     "C20": ["height"],
@@ -95,6 +105,9 @@ PROP_SUITES = {
     "C07": ["system"],
     "C08": ["system"],
     "C11": ["system"],
+    "C06": ["system", "tlv", "classify", "e2e", "fee"],
+    "C09": ["system"],
+    "C14": ["system"],
 }
 
 # protocol op -> properties that a model/implementation divergence on that op un-proves
